@@ -1,4 +1,6 @@
 """Child side: miscellaneous requests."""
+import os
+import sys
 
 
 def do_default_codes(req):
@@ -333,6 +335,14 @@ def _demo_stream(eid, tid):
     add('DBG_DYLD_TIMING_DLOPEN', tid, 2, (0, 9, 0, 0))
     add(eid, tid, 0, (1, 2, 3, 4))
     add('VFS_LOOKUP', t2, 3, data=struct.pack('<Q', 78) + b'/tmp/b'.ljust(24, b'\0'))
+    # the new thread 99 of process 42 ("procname", announced above by another process' thread) makes calls of its own;
+    # then process 42 is renamed by an exec announced on its own thread
+    add('BSC_getpid', 99, 1)
+    add('BSC_getpid', 99, 2, (0, 42, 0, 0))
+    add('TRACE_DATA_EXEC', 99, 0, (42, 0, 0, 0))
+    add('TRACE_STRING_EXEC', 99, 0, data=b'renamed'.ljust(32, b'\0'))
+    add('BSC_getppid', 99, 1)
+    add('BSC_getppid', 99, 2, (0, 1, 0, 0))
     return out
 
 
@@ -358,7 +368,13 @@ def do_traces_filters(req):
     def run(fc, fsc, tid, proc, parser=None):
         p = parser or M.PyKdebugParser()
         p.filter_tid, p.filter_process, p.filter_class, p.filter_subclass = tid, proc, fc, fsc
-        return p, [(t.ktraces[0].eventid, t.ktraces[0].tid, str(t)) for t in p.traces(None)]
+        res = []
+        for t in p.traces(None):
+            # the process the thread belongs to when the trace is reported (the maps are learned while decoding)
+            t_tid = t.ktraces[0].tid
+            pid = p.threads_pids.get(t_tid)
+            res.append((t.ktraces[0].eventid, t_tid, str(t), pid, p.pids_names.get(pid)))
+        return p, res
     out = {'raised': None}
     try:
         _, unf = run([], [], None, None)
@@ -367,22 +383,59 @@ def do_traces_filters(req):
         p, got = run(fc, fsc, cfg.get('filter_tid'), cfg.get('filter_process'))
         residue = (fc != fc0) or (fsc != fsc0)
         _, again = run(fc, fsc, cfg.get('filter_tid'), cfg.get('filter_process'), parser=p)
+        proc = cfg.get('filter_process')
 
-        def allows(eid, tid):
+        def allows(eid, tid, pid, pname):
             if cfg.get('filter_tid') is not None and tid != cfg['filter_tid']:
                 return False
+            if proc is not None and proc not in (str(pid), pname):
+                return False
             return (not fc0 and not fsc0) or (eid >> 24) in fc0 or (eid >> 16) in fsc0
-        exp = [t for t in unf if allows(t[0], t[1])]
+        exp = [t for t in unf if allows(t[0], t[1], t[3], t[4])]
         out.update({'got': [t[2] for t in got], 'expected': [t[2] for t in exp], 'caller_lists_after': [fc, fsc], 'second_call': [t[2] for t in again]})
-        out['violates'] = residue or got != exp or again != got
+        out['violates'] = residue or [t[:3] for t in got] != [t[:3] for t in exp] or [t[:3] for t in again] != [t[:3] for t in got]
         out['residue'] = residue
+        if not out['violates']:
+            # a later request on the same parser object after the caller edited its filter lists in place must equal the
+            # same request on a fresh parser object
+            for edit in ([4], [7], [31]):
+                fc_b = list(fc) + [c for c in edit if c not in fc]
+                del p.filter_class[:]
+                p.filter_class.extend(fc_b)
+                _, seq = run(p.filter_class, p.filter_subclass, cfg.get('filter_tid'), cfg.get('filter_process'), parser=p)
+                _, fresh = run(list(fc_b), list(fsc), cfg.get('filter_tid'), cfg.get('filter_process'))
+                if [t[:3] for t in seq] != [t[:3] for t in fresh]:
+                    out['violates'] = True
+                    out['what'] = ('after a request with filter_class %r the caller changes the list in place to %r and asks again: the parser reports %r, '
+                                   'a fresh parser with these settings reports %r' % (fc0, fc_b, [t[2] for t in seq], [t[2] for t in fresh]))
+                    break
+        if out['violates'] and not residue and 'what' not in out:
+            out['what'] = 'traces() with the filters %r reports %r; the unfiltered run restricted to the filter is %r (second request: %r)' % (
+                cfg, out['got'], out['expected'], out['second_call'])
     except BaseException as ex:  # noqa
         out['raised'] = '%s: %s' % (type(ex).__name__, ex)
         out['violates'] = True
     return out
 
 
-HANDLERS.update({'traces_filters': do_traces_filters})
+def do_traces_filters_search(req):
+    """grid of filter settings over the demonstration stream (bounded refute mode for C13)"""
+    tried = 0
+    base = req.get('config') or {}
+    for tid_f in (base.get('filter_tid'), None, 99, 5):
+        for proc in (base.get('filter_process'), None, 'procname', '42', 'renamed'):
+            for fc, fsc in ((base.get('filter_class') or [], base.get('filter_subclass') or []), ([], []), ([4], []), ([7], []), ([3], []), ([], [0x040c]), ([4, 31], [])):
+                cfg = {'filter_tid': tid_f, 'filter_process': proc, 'filter_class': list(fc), 'filter_subclass': list(fsc)}
+                r = do_traces_filters({'config': cfg, 'eventid': req.get('eventid', 0), 'tid': req.get('tid', 5)})
+                tried += 1
+                if r.get('violates'):
+                    r['request'] = {'kind': 'traces_filters', 'config': cfg, 'eventid': req.get('eventid', 0), 'tid': req.get('tid', 5)}
+                    r['tried'] = tried
+                    return r
+    return {'violates': False, 'tried': tried}
+
+
+HANDLERS.update({'traces_filters': do_traces_filters, 'traces_filters_search': do_traces_filters_search})
 
 
 # ------------------------------------------------------------------------------ C04 refute mode
@@ -1500,3 +1553,74 @@ def do_log_segment_case(req):
 
 
 HANDLERS.update({'log_segment_case': do_log_segment_case})
+
+
+# ------------------------------------------------------------------------------ frame condition: module-level state
+HISTORY_WORDS = [((3, 0x80, 0x80, 0x1000), (0, 2 ** 64 - 1, 0, 0)), ((3, 0x80, 0x80, 0x1000), (0, 0x1000, 0, 0)),
+                 ((1, 2, 3, 4), (0, 1, 0, 0)), ((0x80, 0x80, 0x80, 0x80), (35, 5, 0, 0)), ((7, 7, 7, 7), (0, 0x80, 0, 0))]
+
+
+def do_history_texts(req):
+    """decode one sample window per decoder and word combination, each with a fresh TracesParser, in the given order:
+    {window id: [texts]} - any dependence on the order comes from state kept outside the parser objects"""
+    import struct
+    from pykdebugparser.traces_parser import TracesParser
+    codes = _cached_codes()
+    inv = {v: k for k, v in codes.items()}
+    probe = TracesParser(codes, {}, {})
+    names = sorted(n for n in probe.handlers if n in inv)
+    if req.get('names'):
+        names = [n for n in names if n in req['names']]
+    jobs = [(n, k) for n in names for k in range(len(HISTORY_WORDS))]
+    if req.get('order') == 'reverse':
+        jobs.reverse()
+    out = {}
+    for n, k in jobs:
+        sv, ev = HISTORY_WORDS[k]
+        p = TracesParser(codes, {}, {})
+        texts = []
+        for q, vals in ((1, sv), (2, ev), (0, sv)):
+            try:
+                r = p.feed(_ev_raw(inv[n], 5, q, struct.pack('<QQQQ', *vals)))
+                if r is not None:
+                    texts.append(str(r))
+            except BaseException as ex:  # noqa
+                texts.append('raised %s' % type(ex).__name__)
+        out['%s#%d' % (n, k)] = texts
+    return {'texts': out}
+
+
+def do_history_case(req):
+    """every sample window must decode to the same text after all the other windows have been decoded in the process
+    as it does in an interpreter that decodes that decoder's windows only"""
+    import json
+    import subprocess
+    from concurrent.futures import ThreadPoolExecutor
+
+    def child(names, order='forward'):
+        p = subprocess.run([sys.executable, os.path.join(os.path.dirname(os.path.abspath(__file__)), 'native.py')],
+                           input=json.dumps({'kind': 'history_texts', 'order': order, 'names': names}), capture_output=True, text=True,
+                           timeout=600, env=dict(os.environ))
+        return json.loads(p.stdout.strip().splitlines()[-1])['texts']
+    if req.get('window'):
+        n = req['window'].split('#')[0]
+        names = [n]
+        seasoned = child(req.get('names'), req.get('order', 'forward'))
+    else:
+        seasoned = child(req.get('names'))
+        names = sorted(set(k.split('#')[0] for k in seasoned))
+    for order in (['forward', 'reverse'] if not req.get('window') else [req.get('order', 'forward')]):
+        if order == 'reverse':
+            seasoned = child(req.get('names'), 'reverse')
+        with ThreadPoolExecutor(16) as ex:
+            fresh = list(ex.map(lambda n: child([n]), names))
+        for n, fr in zip(names, fresh):
+            for k in sorted(fr):
+                if fr[k] != seasoned.get(k):
+                    return {'violates': True, 'window': k, 'order': order,
+                            'what': 'the window %s decodes to %r in an interpreter that decoded nothing else, and to %r after the sample windows of the other '
+                                    'decoders have been decoded: state kept outside the parser objects leaks between decodes' % (k, fr[k], seasoned.get(k))}
+    return {'violates': False, 'windows': len(seasoned)}
+
+
+HANDLERS.update({'history_texts': do_history_texts, 'history_case': do_history_case})
